@@ -680,7 +680,7 @@ def first_none_check(sem, case, outs, models, tasks, answers, base_check, z3):
         if op[0] == 'find_another_var':
             return          # a request on one variable excludes more than the current schedule
         if op[0] == 'initialize':
-            before = []     # the blocking clauses are dropped
+            before = before[-1:]     # the blocking clauses are dropped; the current solution is kept, the next request excludes it
         if o[0] == 'ret' and o[1] in models:
             before.append(proj_of_model(models[o[1]], tasks, z3))
         elif o[0] == 'none' and op[0] == 'find_another':
